@@ -1172,9 +1172,22 @@ def run_case(case, extra_strategies=None, audit=True, pre_run=None, observers=()
                     commission_base=c.get("commission", 0.05),
                 )
             )
-        fw = FlumineSimulation(client=cl_objs[0])
-        for c in cl_objs[1:]:
-            fw.add_client(c)
+        if case.get("middleware_first"):
+            # the application brings its own subclass of the simulation middleware and registers it before the clients
+            from flumine.markets.middleware import SimulatedMiddleware as _SM
+
+            class UserSimulatedMiddleware(_SM):
+                def remove_market(self, market):
+                    return super().remove_market(market)
+
+            fw = FlumineSimulation()
+            fw.add_market_middleware(UserSimulatedMiddleware())
+            for c in cl_objs:
+                fw.add_client(c)
+        else:
+            fw = FlumineSimulation(client=cl_objs[0])
+            for c in cl_objs[1:]:
+                fw.add_client(c)
         tr.framework = fw
         base_filter = {"markets": paths, "listener_kwargs": dict(case.get("listener_kwargs", {}))}
         if case.get("event_processing"):
